@@ -4,6 +4,7 @@ import DadiVerif.Lemmas.Pivots
 import DadiVerif.Lemmas.Positivity
 import DadiVerif.Lemmas.GridReal
 import DadiVerif.Lemmas.DriverProgram
+import DadiVerif.Lemmas.KernelRun
 /-!
 # C02 — every integration path solves the documented implicit scheme
 
@@ -349,5 +350,118 @@ theorem C02_default_grid_ok (pts : ℕ) (hp : 2 ≤ pts) (crwd : ℝ) (hc : 0 < 
 theorem C02_default_grid_wiring : Gen.GridReal.defaultIsExponential = true ∧ (0:ℝ) < Gen.GridReal.crwdDefault := by
   refine ⟨rfl, ?_⟩
   unfold Gen.GridReal.crwdDefault; norm_num
+
+/-! ### The interiors of the C kernels, statement by statement (round 6)
+
+`C.kernelProgs` is the translation of the BODIES of `implicit_{d}D{x,y,z,a,b}` (15) and `implicit_precalc_{d}D{x,y,z}` (5): the loop
+nest with its bounds, the arguments of every `compute_dx / compute_dfactor / compute_xInt / compute_delj / compute_abc_nobc /
+Vfunc / Mfunc{d}D / tridiag_premalloc` call, every FLAT INDEX used to read and write `phi` as a linear form
+Σ loop variable · Π extents, the corner guards and terms, the allocation lengths (loop variables are numbered by the loop that
+binds them, locals named by what they hold — a renamed variable translates to the same program; anything else in a kernel body is
+a `TranslateError`).  `KProg.resolve` binds every name against `C.kernelSigs` (which parameter is the density / the grid of axis p
+/ ν / the i-th migration rate / dt / …, and which extent or literal the Cython wrapper passes for each `int` parameter).
+`KProg.run` is the semantics of a resolved program on a flat row-major array. -/
+
+/-- **every kernel body, resolved, is the program the model stands for** (`KProg.expected d ax pre`): kernel (d, ax) loops over the
+    other axes in axis order from 0 to their extents (outermost loop of the 2-D/3-D kernels: the end the wrapper passes,
+    `KProg.wrapperEndAxis` — known finding F-02), assembles dx, dfactor, xInt, V, VInt from grid ax and ν, calls
+    `Mfunc{d}D(·, grid values of the OTHER axes at the loop variables in axis order, the rates in that order, γ, h)` for
+    Mfirst (at grid[0]), Mlast (at grid[E−1]) and MInt (at xInt), `compute_delj(dx, MInt, VInt, E, delj, switch)`,
+    `compute_abc_nobc(dx, dfactor, delj, MInt, V, dt, E, a, b, c)`, loads `r = phi[Σ_p var_p·Π_{q>p} extent_q]/dt`, adds the corner
+    terms (with dx[0] / dx[E−2], the same ν) under "ALL other coordinates == 0 (== 1)" and the sign test, solves, and writes back at
+    the SAME flat index; allocation lengths E resp. E−1; statements exchanged only where they touch disjoint data. -/
+theorem C02_kernel_program_table :
+    KProg.resolvedAll.map KProg.stripAllocs = KProg.expectedAll
+    ∧ (KProg.resolvedAll.filter (·.pre)).all KProg.preAllocsOk = true := by
+  decide +kernel
+
+/-- the flat index of every kernel IS the row-major index of the multi-index that has the line variable in position ax and the
+    variables of the loop nest in the other positions — for every shape (d ≤ 5) -/
+theorem C02_kernel_index (d ax : ℕ) (hd : d ≤ 5) (hax : ax < d) (env : KProg.KEnv) (hs : env.shape.length = d)
+    (vals : List ℕ) (hv : vals.length = d - 1) (j : ℕ) :
+    KProg.evalIdx env vals j (KProg.expIdx d ax) = flatIdx env.shape (vals.insertIdx ax j) :=
+  KProg.evalIdx_expIdx d ax hd hax env hs vals hv j
+
+/-- …and the loop nest together with the line loop visits every entry of the array exactly once: every flat position below
+    `prodL shape` is `flatIdx shape (i.insertIdx k j)` for exactly one line `i` of the box of the other axes and one `j < shape[k]` -/
+theorem C02_kernel_visits_once (shape : List ℕ) (k : ℕ) (hk : k < shape.length) (m : ℕ) (hm : m < prodL shape) :
+    ∃ i j, (i ∈ boxIdx (shape.eraseIdx k) ∧ j < shape.getD k 0 ∧ flatIdx shape (i.insertIdx k j) = m) ∧
+      ∀ i' j', i' ∈ boxIdx (shape.eraseIdx k) → j' < shape.getD k 0 → flatIdx shape (i'.insertIdx k j') = m → i' = i ∧ j' = j := by
+  have hidx := unflat_inBox shape m hm
+  obtain ⟨hins, hj⟩ := insert_erase shape (unflat shape m) k hidx hk
+  have hi := inBox_eraseIdx shape _ k hidx
+  refine ⟨(unflat shape m).eraseIdx k, (unflat shape m).getD k 0, ⟨(KProg.inBox_boxIdx _ _).2 hi, hj, ?_⟩, ?_⟩
+  · rw [hins, KProg.flatIdx_unflat shape m hm]
+  · intro i' j' hi' hj' he
+    have := KProg.lineIx_inj shape k hk i' _ j' _ ((KProg.inBox_boxIdx _ _).1 hi') hi hj' hj
+      (by unfold KProg.lineIx; rw [he, hins, KProg.flatIdx_unflat shape m hm])
+    exact this
+
+/-- the coordinate arguments handed to `Mfunc{d}D` are the grid values of the OTHER axes at the loop variables, in axis order
+    (`otherCoords`, what the model's `axisLine` is given) — and the corner guards test exactly these, all of them -/
+theorem C02_kernel_coords (d ax : ℕ) (hd : d ≤ 5) (hax : ax < d) (env : KProg.KEnv) (hg : env.grids.length = d)
+    (vals : List ℕ) (hv : vals.length = d - 1) (s : KProg.WState) (j n : ℕ) :
+    (KProg.coordArgs d ax).map (KProg.evalExpr env vals s j) = otherCoords env.grids ax vals
+    ∧ (KProg.guardCmps d ax n).all (KProg.evalCmp env vals s) = (otherCoords env.grids ax vals).all (· == (n : ℚ)) :=
+  ⟨KProg.coordArgs_eval d ax hd hax env hg vals hv s j,
+   KProg.all_guardCmps d ax n env vals s _ (fun s j => KProg.coordArgs_eval d ax hd hax env hg vals hv s j)⟩
+
+/-- **running the translated body of an on-the-fly kernel IS the model step the driver runs**: for every kernel (d, ax) of the
+    table, every shape / grids / parameters / delj setting (supplied exp values) / dt / density — the loop nest over the flat array,
+    in place, equals `stepAxis grids ax P use eps dt` (whose every line is the solution of the scheme: `C02_step_solves`). -/
+theorem C02_kernel_program (R : KProg.KProgR) (hR : R ∈ KProg.resolvedAll) (hpre : R.pre = false) (env : KProg.KEnv)
+    (h : KProg.EnvOk R.d R.ax env) (hw : KProg.WrapperExtentsOk R.d R.ax false env.shape)
+    (epsND : ND) (heps : env.eps = fun i j => epsND.get (i.insertIdx R.ax j)) (phi : Array ℚ) (hsz : phi.size = prodL env.shape) :
+    (⟨env.shape, KProg.run R env phi⟩ : ND) = stepAxis env.grids R.ax env.P env.use epsND env.dt ⟨env.shape, phi⟩ := by
+  have hmem : KProg.stripAllocs R ∈ KProg.expectedAll := by
+    rw [← C02_kernel_program_table.1]; exact List.mem_map_of_mem hR
+  have hstrip : KProg.stripAllocs R = R := by simp [KProg.stripAllocs, hpre]
+  rw [hstrip] at hmem
+  simp only [KProg.expectedAll, List.mem_append, List.mem_flatMap, List.mem_map, List.mem_range] at hmem
+  rcases hmem with ⟨d, _, ax, _, rfl⟩ | ⟨d, _, ax, _, rfl⟩
+  · have e := KProg.run_expected (d + 1) ax env h hw epsND heps phi hsz
+    show (⟨env.shape, KProg.run (KProg.expected (d + 1) ax false) env phi⟩ : ND) = _
+    rw [e]; rfl
+  · simp [KProg.expected] at hpre
+
+/-- the same for the pre-computed-coefficient kernels: running the translated body equals `preSolve` (solve
+    `(a, b + 1/dt, c) x = φ/dt` along every line of axis ax, the coefficient arrays read at the same flat index as the density) -/
+theorem C02_kernel_program_pre (R : KProg.KProgR) (hR : R ∈ KProg.resolvedAll) (hpre : R.pre = true) (env : KProg.KEnv)
+    (hs : env.shape.length = R.d) (hw : KProg.WrapperExtentsOk R.d R.ax true env.shape) (a b c : ND)
+    (ha : a.shape = env.shape) (hb : b.shape = env.shape) (hc : c.shape = env.shape) (hco : env.coefs = [a.data, b.data, c.data])
+    (phi : Array ℚ) (hsz : phi.size = prodL env.shape) :
+    (⟨env.shape, KProg.run R env phi⟩ : ND) = preSolve R.ax env.dt a b c ⟨env.shape, phi⟩ := by
+  have hmem : KProg.stripAllocs R ∈ KProg.expectedAll := by
+    rw [← C02_kernel_program_table.1]; exact List.mem_map_of_mem hR
+  have hrun : KProg.run R env phi = KProg.run (KProg.stripAllocs R) env phi := by
+    unfold KProg.stripAllocs; split <;> rfl
+  have hd' : (KProg.stripAllocs R).d = R.d ∧ (KProg.stripAllocs R).ax = R.ax ∧ (KProg.stripAllocs R).pre = R.pre := by
+    unfold KProg.stripAllocs; split <;> exact ⟨rfl, rfl, rfl⟩
+  rw [hrun]
+  obtain ⟨e1, e2, e3⟩ := hd'
+  rw [← e1] at hs hw; rw [← e2] at hw ⊢; rw [← e3] at hpre
+  generalize KProg.stripAllocs R = R' at *
+  simp only [KProg.expectedAll, List.mem_append, List.mem_flatMap, List.mem_map, List.mem_range] at hmem
+  rcases hmem with ⟨d, _, ax, _, rfl⟩ | ⟨d, hd, ax, hax, rfl⟩
+  · simp [KProg.expected] at hpre
+  · have hd5 : d ≤ 5 := by simp at hd; omega
+    have e := KProg.run_expected_pre d ax env hd5 hax hs hw a b c ha hb hc hco phi hsz
+    show (⟨env.shape, KProg.run (KProg.expected d ax true) env phi⟩ : ND) = _
+    rw [e]; rfl
+
+/-- non-vacuity: the table has the 15 + 5 kernels; the hypotheses of `C02_kernel_program` are met by a 3 × 2 array in two populations -/
+example : KProg.resolvedAll.map (fun R => (R.d, R.ax, R.pre)) =
+    ((List.range 5).flatMap fun d => (List.range (d + 1)).map fun ax => (d + 1, ax, false))
+      ++ [(2, 0, true), (2, 1, true), (3, 0, true), (3, 1, true), (3, 2, true)] := by decide +kernel
+
+example : KProg.EnvOk 2 1
+    { shape := [3, 2], grids := [#[0, 1/2, 1], #[0, 1]], coefs := [],
+      P := { nu := 2, gamma := -1, h := 1/3, ms := [1/2], beta := none }, use := false, dt := 1/10, eps := fun _ _ => 1 }
+    ∧ KProg.WrapperExtentsOk 4 2 false [3, 4, 5, 6] := by
+  refine ⟨⟨by omega, by omega, by omega, rfl, rfl, ?_, by simp, rfl, by simp⟩, ?_⟩
+  · intro k hk
+    have : k = 0 ∨ k = 1 := by omega
+    rcases this with rfl | rfl <;> simp
+  · intro _ h; omega
 
 end DadiVerif
